@@ -79,6 +79,12 @@ def impl_bench(task):
         return d
     S.StiffnessTester._draw_decision = wrapd
     try:
+        for pre in task.get("pre", []):     # other benchmarks made earlier in this interpreter (same variable names, other initial values)
+            _, p_sys, p_shapes = odetoolbox._analysis(pre, disable_stiffness_check=True, disable_analytic_solver=True)
+            S.StiffnessTester(p_sys, p_shapes, stimuli=pre.get("stimuli"), random_seed=task["seed"] + 1, sim_time=0.5, max_step_size=0.25).check_stiffness()
+        del trains[:]
+        del decisions[:]
+        del odeiv.LOG[:]
         if task.get("mode") == "tester":
             _, sys_, shapes = odetoolbox._analysis(task["indict"], disable_stiffness_check=True, disable_analytic_solver=True)
             opts = task["indict"].get("options", {})
@@ -93,9 +99,13 @@ def impl_bench(task):
         S.StiffnessTester._draw_decision = origd
     names = [s["solver"] for s in res]
     steppers = [e[1] for e in odeiv.LOG if e[0] == "apply"]
+    starts = {}
+    for e in odeiv.LOG:
+        if e[0] == "apply" and e[1] not in starts:
+            starts[e[1]] = {"t": e[2], "y": e[7]}
     del odeiv.LOG[:]
     return {"outcome": "Ok", "trains": trains, "decisions": decisions, "names": names,
-            "steppers": sorted(set(steppers))}
+            "steppers": sorted(set(steppers)), "starts": starts}
 
 
 HEADER = """From Coq Require Import ZArith QArith Qcanon List String.
@@ -110,9 +120,9 @@ Definition mism (cases : list (list Qc * string)) : list nat := mism_by agree ca
 """
 
 
-def bench_indict(seed, rate, variant):
-    d = {"dynamics": [{"expression": "x' = -x**2 / 8 + y", "initial_value": "1"},
-                      {"expression": "y' = -y / 4", "initial_value": "2"}],
+def bench_indict(seed, rate, variant, ivs=("1", "2")):
+    d = {"dynamics": [{"expression": "x' = -x**2 / 8 + y", "initial_value": ivs[0]},
+                      {"expression": "y' = -y / 4", "initial_value": ivs[1]}],
          "options": {"sim_time": 2.0, "max_step_size": 0.25},
          "stimuli": [{"type": "poisson_generator", "rate": str(rate), "variables": ["x"]}]}
     if variant == 1:
@@ -171,12 +181,14 @@ def run(ctx):
     for k in range(nb):
         seed = rng.randint(0, 10 ** 6)
         rate = rng.choice([5., 9., 14.])
-        ind = bench_indict(seed, rate, k % 2)
+        ivs = rng.choice([("1", "2"), ("1", "2"), ("0.5", "3"), ("2", "0.25")])
+        ind = bench_indict(seed, rate, k % 2, ivs)
         h = hs[k % len(hs)]
+        pre = [bench_indict(seed, rate, 0, rng.choice([("4", "1"), ("0.125", "8")]))] if k % 2 == 1 or k == 0 else []
         for rep in range(2):
-            tasks.append({"fn": "c14.impl_bench", "indict": ind, "perturb": rng.randint(0, 10 ** 6), "hsug": h, "timeout": 400, "group": k,
-                          "mode": "analysis" if k % 3 == 0 else "tester", "seed": seed})
-    bres = C.run_tasks(tasks, timeout=400, stub=True)
+            tasks.append({"fn": "c14.impl_bench", "indict": ind, "perturb": rng.randint(0, 10 ** 6), "hsug": h, "timeout": 600, "group": k,
+                          "mode": "analysis" if k % 3 == 0 else "tester", "seed": seed, "pre": pre, "ivs": [float(v) for v in ivs], "fresh": bool(pre)})
+    bres = C.run_tasks(tasks, timeout=600, stub=True)
     dist["bench_runs"] = len(tasks)
     dist["bench_decisions"] = {}
     samples = [{"grid": cases[0], "impl": outs[0] if outs else None}]
@@ -194,6 +206,15 @@ def run(ctx):
             continue
         if r1["steppers"] != ["step_bsimp", "step_rk4"]:
             probe_failures.append({"key": "candidates " + key, "what": "candidates benchmarked: %s (expected explicit rk4 and implicit bsimp)" % r1["steppers"], "replay": {"kind": "bench", "task": tasks[2 * k]}})
+        for r in (r1, r2):
+            for stp, st in sorted(r.get("starts", {}).items()):
+                if st["t"] == 0.0 and st["y"] != tasks[2 * k]["ivs"][:len(st["y"])]:     # (through analysis() y is solved analytically: the numeric state is [x])
+                    probe_failures.append({"key": "fairness: candidate not started from the system's initial values",
+                                           "what": "candidate %s was benchmarked from the state %s; the initial values of the system are %s (%d benchmark(s) of other systems were made earlier in the same interpreter)" % (
+                                               stp, st["y"], tasks[2 * k]["ivs"], len(tasks[2 * k]["pre"])),
+                                           "replay": {"kind": "bench", "task": tasks[2 * k]}})
+                    break
+        dist["bench_after_other_benchmarks"] = dist.get("bench_after_other_benchmarks", 0) + int(bool(tasks[2 * k]["pre"]))
         if r1["trains"][0] != r1["trains"][1]:
             probe_failures.append({"key": "fairness: candidates see different spike trains",
                                    "what": "check_stiffness with a Poisson stimulus, seed %s: explicit candidate got %d spikes, implicit got %d / different times" % (
@@ -229,10 +250,11 @@ def replay(payload):
         ok = res.get("outcome") == "Ok" and res["outs"][0] == rp["expected"]
         return ok, "grid case -> %s (documented: %s)" % (res.get("outs"), rp["expected"])
     if rp.get("kind") == "bench":
-        res = C.run_tasks([rp["task"]], timeout=400, stub=True)[0]
+        res = C.run_tasks([dict(rp["task"], fresh=True)], timeout=900, stub=True)[0]
         if res.get("outcome") != "Ok":
             return False, "run failed %s" % res
         ok = res["trains"][0] == res["trains"][1]
+        ok = ok and all(st["t"] != 0.0 or st["y"] == rp["task"].get("ivs", st["y"])[:len(st["y"])] for st in res.get("starts", {}).values())
         if "task2" in rp:
             res2 = C.run_tasks([rp["task2"]], timeout=400, stub=True)[0]
             ok = ok and res2.get("trains") == res["trains"]
